@@ -86,6 +86,18 @@ def init (P : Params) (groups : List Rat) : State :=
       | some l => groups.map (fun _ => l)
       | none => groups }
 
+/-- New controller without history, **without** the call of `load_model_and_optimizer_for_epoch`:
+the optimizer keeps whatever rates it was built with, also when `log10_learning_rate` is set (the
+recorded rate and the optimizer's rates are then "not in sync" until the first reduction). -/
+def initRaw (P : Params) (groups : List Rat) : State :=
+  { hist := [row0 P], groups := groups }
+
+/-- what `load_model_and_optimizer_for_epoch` (epoch 0) does to the optimizer's rates -/
+def syncGroups (P : Params) (groups : List Rat) : List Rat :=
+  match P.initLr with
+  | some l => groups.map (fun _ => l)
+  | none => groups
+
 /-- `self.get_info(e)` for a Python int `e` (a dict lookup: negative keys are missing). -/
 def getInfo (h : List Row) (e : Int) : Except Err Row :=
   if e < 0 then .error .key
@@ -185,6 +197,13 @@ def continueTraining (P : Params) (S : State) : Except Err Bool :=
   | .ok info =>
     .ok (if P.esThr ≠ 0 ∧ info.esCd = 0 then false else budgetCont P epoch)
 
+/-- `continue_training(epoch)` with an explicit epoch: looks at the recorded row of that epoch. -/
+def continueTrainingAt (P : Params) (S : State) (epoch : Nat) : Except Err Bool :=
+  match getInfo S.hist epoch with
+  | .error e => .error e
+  | .ok info =>
+    .ok (if P.esThr ≠ 0 ∧ info.esCd = 0 then false else budgetCont P epoch)
+
 /-- Uninterrupted run over a list of `(train_met, val_met)`. -/
 def run (P : Params) : State → List (Rat × Rat) → Except Err (State × List Out)
   | S, [] => .ok (S, [])
@@ -195,6 +214,39 @@ def run (P : Params) : State → List (Rat × Rat) → Except Err (State × List
       match run P S' ms with
       | .error e => .error e
       | .ok (S'', os) => .ok (S'', o :: os)
+
+/-! ## The documented training loops
+
+`ms` is the stream of metrics the epochs would produce; the loop consumes as many as it runs. -/
+
+/-- the loop of the class docstring:
+`for epoch in ...: if not controller.update_for_epoch(model, optimizer, train, val): break` -/
+def breakLoop (P : Params) : State → List (Rat × Rat) → Except Err (State × List Out)
+  | S, [] => .ok (S, [])
+  | S, m :: ms =>
+    match step P S m.1 m.2 with
+    | .error e => .error e
+    | .ok (S', o) =>
+      if o.cont then
+        match breakLoop P S' ms with
+        | .error e => .error e
+        | .ok (S'', os) => .ok (S'', o :: os)
+      else .ok (S', [o])
+
+/-- the resumable form: `while controller.continue_training(): ...; controller.update_for_epoch(...)` -/
+def whileLoop (P : Params) : State → List (Rat × Rat) → Except Err (State × List Out)
+  | S, [] => .ok (S, [])
+  | S, m :: ms =>
+    match continueTraining P S with
+    | .error e => .error e
+    | .ok false => .ok (S, [])
+    | .ok true =>
+      match step P S m.1 m.2 with
+      | .error e => .error e
+      | .ok (S', o) =>
+        match whileLoop P S' ms with
+        | .error e => .error e
+        | .ok (S'', os) => .ok (S'', o :: os)
 
 /-! ## The history file: `"{:.4e}"` and `float(...)` -/
 
@@ -355,16 +407,28 @@ def fmtOptRat (sig : Nat) (x : Option Rat) : List Char :=
   | none => "inf".toList
   | some q => sciText sig (fmtSci sig q)
 
-/-- the fields of one CSV row, in column order -/
-def rowFields (P : Params) (r : Row) : List String :=
+/-- the fields of one CSV row, in column order (characters) -/
+def rowFieldsC (P : Params) (r : Row) : List (List Char) :=
   let w := widths P
-  [ String.ofList (fmtNat w.epoch r.epoch), String.ofList (fmtInt w.esResume r.esResume),
-    String.ofList (fmtInt w.esCd r.esCd), String.ofList (fmtInt w.rlrResume r.rlrResume),
-    String.ofList (fmtInt w.rlrCd r.rlrCd), String.ofList (fmtOptRat P.sig r.lr),
-    String.ofList (fmtOptRat P.sig r.train), String.ofList (fmtOptRat P.sig r.val) ]
+  [ fmtNat w.epoch r.epoch, fmtInt w.esResume r.esResume, fmtInt w.esCd r.esCd,
+    fmtInt w.rlrResume r.rlrResume, fmtInt w.rlrCd r.rlrCd, fmtOptRat P.sig r.lr,
+    fmtOptRat P.sig r.train, fmtOptRat P.sig r.val ]
 
-def csvHeader : List String :=
-  ["epoch", "es_resume_cd", "es_patience_cd", "rlr_resume_cd", "rlr_patience_cd", "lr",
-   "train_met", "val_met"]
+/-- the fields of one CSV row, in column order -/
+def rowFields (P : Params) (r : Row) : List String := (rowFieldsC P r).map String.ofList
+
+def nEpoch : List Char := ['e', 'p', 'o', 'c', 'h']
+def nEsResume : List Char := ['e', 's', '_', 'r', 'e', 's', 'u', 'm', 'e', '_', 'c', 'd']
+def nEsCd : List Char := ['e', 's', '_', 'p', 'a', 't', 'i', 'e', 'n', 'c', 'e', '_', 'c', 'd']
+def nRlrResume : List Char := ['r', 'l', 'r', '_', 'r', 'e', 's', 'u', 'm', 'e', '_', 'c', 'd']
+def nRlrCd : List Char := ['r', 'l', 'r', '_', 'p', 'a', 't', 'i', 'e', 'n', 'c', 'e', '_', 'c', 'd']
+def nLr : List Char := ['l', 'r']
+def nTrain : List Char := ['t', 'r', 'a', 'i', 'n', '_', 'm', 'e', 't']
+def nVal : List Char := ['v', 'a', 'l', '_', 'm', 'e', 't']
+
+/-- the reserved column names, in column order -/
+def headerC : List (List Char) := [nEpoch, nEsResume, nEsCd, nRlrResume, nRlrCd, nLr, nTrain, nVal]
+
+def csvHeader : List String := headerC.map String.ofList
 
 end PdtVerif.Controller
